@@ -21,13 +21,16 @@ def run(rep, tier, seed):
         if tier == 'quick':
             ex = chk.run_config('hist', consts(Cats=['A', 'AB'], Metas=METAS_SMALL[:2], Ops=['get', 'getmeta', 'unknown'],
                                                MaxSaves=2, MaxQueries=2), cap=30000, rich=True)
-            chk.run_config('hist3', consts(Cats=['A'], Metas=METAS_SMALL[2:3], Ops=['get', 'getmeta'], MaxSaves=3, MaxQueries=2),
+            chk.run_config('hist3', consts(Cats=['A'], Metas=METAS_SMALL[2:3], Ops=['get', 'getmeta'], MaxSaves=3, MaxQueries=2,
+                                           Probes=[False, True]),
                            cap=5000, rich=True)
         else:
             ex = chk.run_config('hist', consts(Cats=['A', 'AB', 'A_B'], Metas=METAS_SMALL[:3], Ops=['get', 'getmeta', 'unknown'],
                                                MaxSaves=2, MaxQueries=2), cap=300000, rich=True, n_seeds=3)
             chk.run_config('hist4', consts(Cats=['A', 'AB'], Metas=METAS_SMALL[2:3], Ops=['get', 'getmeta', 'unknown'],
                                            MaxSaves=4, MaxQueries=2), cap=100000, rich=True, n_seeds=2)
+            chk.run_config('probed', consts(Cats=['A', 'AB'], Metas=METAS_SMALL[:2], Ops=['get', 'getmeta', 'unknown'],
+                                            MaxSaves=3, MaxQueries=2, Probes=[False, True]), cap=100000, rich=True)
         rep.exhaustive = bool(ex)
     finally:
         chk.close()
